@@ -116,8 +116,8 @@ def small_model(ob, neg, timeout_s):
     sizes = size_terms(ob.inputs)
     if not sizes:
         return None
-    for bound in (1, 2, 3, 5):
-        s = _solver(min(timeout_s, 5.0) * 1000, True)
+    for bound in (1, 2, 3):
+        s = _solver(min(timeout_s, 2.0) * 1000, True)
         s.add(*ob.hyps)
         s.add(neg)
         for t in sizes:
